@@ -752,6 +752,25 @@ def make_groups(rng, tier):
                     make_request(gen, False, 3, "existing_id", 1, existing={"s00": "queued"})]
             groups.append(dict(config=text, intent=intent, backend=backend, nobatch=True, now=T0, setup=setup, requests=[r for r in reqs if r], gen=gen,
                                tag="nobatch-%d-%s" % (depth, drop)))
+    # (h) a long batch (more than any plausible page of an id lookup) in which SEVERAL ids exist already, far apart: the error names the first
+    for backend in ("memory", "sqlite"):
+        text, intent = make_config(rng, 0, tier)
+        gen = Gen(rng, intent)
+        setup = [dict(id="s%02d" % i, route="/a", target="pull", recv=T0 - 900 + i, payload_b64="", headers=None, cancel=False) for i in range(3)]
+        for st_ in setup:
+            gen.id_num(st_["id"])
+        reqs = []
+        for scoped in (False, True):
+            for first, later in ((120, [730]), (499, [500, 1099]), (3, [1001])):
+                rq = make_request(gen, scoped, 1100, "existing_id", first, existing={"s00": "queued"})
+                if not rq:
+                    continue
+                for k, pos in enumerate(later):
+                    rq["items"][pos]["id"] = "s%02d" % (k + 1)
+                    rq["kinds"][pos] = "existing_id"
+                rq["body"] = json.dumps({"items": rq["items"]})
+                reqs.append(rq)
+        groups.append(dict(config=text, intent=intent, backend=backend, nobatch=False, now=T0, setup=setup, requests=reqs, gen=gen, tag="several-existing-ids"))
     if tier != "quick":
         text, intent = make_config(rng, 0, tier)
         for backend in ("memory", "sqlite"):
